@@ -19,6 +19,33 @@ for tc in ET.parse(out).getroot().iter("testcase"):
         passed.add("%s::%s" % (tc.get("classname"), tc.get("name")))
 os.remove(out)
 missing = sorted(stable - passed)
+if missing and "--no-retry" not in sys.argv:
+    # some tests use fixed file names under /tmp and flicker when several suites run at the same time:
+    # the files holding a baseline test that did not pass are re-run alone (up to 3 times, under a lock)
+    import fcntl, time
+    files = sorted(set(m.split("::")[0].replace(".", "/") + ".py" for m in missing))
+    lock = open("/tmp/baseline-retry.lock", "w")
+    fcntl.flock(lock, fcntl.LOCK_EX)
+    try:
+        for attempt in range(3):
+            if not missing:
+                break
+            out2 = out + ".retry"
+            subprocess.run(["/venv/bin/python", "-m", "pytest", "-q", "-p", "no:cacheprovider", "--timeout=900",
+                            "--junitxml=" + out2] + [f for f in files if os.path.exists(os.path.join(repo, f))],
+                           cwd=repo, env=env, stdout=subprocess.PIPE, stderr=subprocess.STDOUT, text=True)
+            if os.path.exists(out2):
+                for tc in ET.parse(out2).getroot().iter("testcase"):
+                    if not list(tc):
+                        passed.add("%s::%s" % (tc.get("classname"), tc.get("name")))
+                os.remove(out2)
+            still = sorted(stable - passed)
+            if still != missing:
+                print("retry %d: %d of %d baseline tests pass when their files run alone" % (attempt + 1, len(missing) - len(still), len(missing)))
+            missing = still
+            time.sleep(2)
+    finally:
+        fcntl.flock(lock, fcntl.LOCK_UN)
 print("passed=%d baseline=%d baseline_tests_not_passing=%d" % (len(passed), len(stable), len(missing)))
 for m in missing[:30]:
     print("  NOT PASSING:", m)
